@@ -178,9 +178,13 @@ Proof. exact rack_affinity. Qed.
 Print Assumptions C14_rack_affinity.
 
 (* ---- the group leader (reader.go extractTopics + consumergroup.go assignTopicPartitions):
-   [extract_topics ms] are the topics the leader asks the broker for, [read_partitions
-   cluster topics] the broker's answer (the partitions of exactly those topics),
-   [leader_range/leader_rr/leader_rack] the balancer applied to the members and that answer.
+   [extract_topics ms] are the topics the leader asks the broker for; the broker
+   ([broker_read cluster topics]) answers with the partitions of exactly those topics, or
+   fails as a whole (UnknownTopicOrPartition) when it does not have one of them
+   ([topic_exists cluster t] = the cluster lists a partition of t); after such a failure
+   with more than one topic the leader asks for each topic on its own and skips the unknown
+   ones; [leader_partitions ms cluster] is what the balancer is then handed and
+   [leader_range/leader_rr/leader_rack] the balancer applied to it.
    The leader asks for exactly the subscribed topics, each once, in sorted order. ---- *)
 Theorem C14_extract_topics : forall ms,
   (forall t, In t (extract_topics ms) <-> exists m, In m ms /\ In t (m_topics m)) /\
@@ -189,9 +193,20 @@ Theorem C14_extract_topics : forall ms,
 Proof. exact extract_topics_spec. Qed.
 Print Assumptions C14_extract_topics.
 
-(* what the balancer is handed for a topic: all the cluster has, iff somebody subscribes *)
+(* the metadata requests, in order: the sorted union of the subscriptions; after an
+   unknown-topic failure with more than one topic, one request per topic *)
+Theorem C14_leader_requests : forall ms cluster,
+  let topics := extract_topics ms in
+  leader_requests ms cluster =
+  if forallb (topic_exists cluster) topics then [topics]
+  else if 1 <? length topics then topics :: map (fun t => [t]) topics else [topics].
+Proof. exact leader_requests_spec. Qed.
+Print Assumptions C14_leader_requests.
+
+(* what the balancer is handed for a topic — whether or not some subscribed topic is missing
+   from the cluster: all the cluster has of it, iff somebody subscribes to it *)
 Theorem C14_leader_partitions : forall ms cluster t,
-  find_partitions t (read_partitions cluster (extract_topics ms)) =
+  find_partitions t (leader_partitions ms cluster) =
   if existsb (subscribes t) ms then find_partitions t cluster else [].
 Proof. exact find_partitions_leader. Qed.
 Print Assumptions C14_leader_partitions.
@@ -213,6 +228,17 @@ Theorem C14_leader_partition : forall ms cluster, wf_group ms ->
                            (if existsb (subscribes t) ms then find_partitions t cluster else [])).
 Proof. exact leader_partition_all. Qed.
 Print Assumptions C14_leader_partition.
+
+(* topics the cluster lacks get nothing (a consequence of the three clauses above) *)
+Theorem C14_leader_missing_topic : forall ms cluster a t,
+  (NoDup (tkeys a) /\
+   (forall tr, In tr a ->
+      exists m, In m ms /\ m_id m = fst (fst tr) /\ In (snd (fst tr)) (m_topics m)) /\
+   (forall t, Permutation (topic_parts a t)
+                          (if existsb (subscribes t) ms then find_partitions t cluster else []))) ->
+  topic_exists cluster t = false -> topic_parts a t = [].
+Proof. exact leader_missing_topic_nothing. Qed.
+Print Assumptions C14_leader_missing_topic.
 
 Theorem C14_leader_rack_no_panic : forall zo ro ms cluster, wf_group ms ->
   (forall t, Permutation (zo t) (zones_of (aget t (partitions_by_topic (leader_partitions ms cluster)))) /\
@@ -302,3 +328,14 @@ Example C14_example_leader :
   leader_range ex_ms ex_ps = range_assign ex_ms ex_ps /\
   extract_topics [mkMember [97]%N [[116]]%N []; mkMember [99]%N [[116]; [117]]%N []] = [[116]; [117]]%N.
 Proof. vm_compute. repeat split; reflexivity. Qed.
+
+(* a cluster lacking the subscribed topic u: the bulk request fails, the leader asks for t
+   and u separately, and t's partitions are still all assigned *)
+Definition ex_cluster_no_u : list partition :=
+  filter (fun p => negb (bytes_eqb (p_topic p) [117]%N)) ex_ps.
+Example C14_example_leader_fallback :
+  leader_requests ex_ms ex_cluster_no_u = [[[116]; [117]]; [[116]]; [[117]]]%N /\
+  leader_range ex_ms ex_cluster_no_u =
+  [ ([97]%N, [116]%N, [4]%Z); ([97; 49]%N, [116]%N, [0; 7]%Z); ([99]%N, [116]%N, [2; 9]%Z);
+    ([97; 49]%N, [117]%N, []); ([99]%N, [117]%N, []) ].
+Proof. vm_compute. split; reflexivity. Qed.
